@@ -94,7 +94,7 @@ def cases(tier):
                        need=("invalid public child (IL >= n) raises", "invalid public child (infinity) raises")))
     for L in ((16, 32, 64) if tier == "quick" else (0, 1, 16, 31, 32, 33, 64, 65)):
         cs.append(Case("master[%d]" % L, "master", dict(seedlen=L, testnet=False),
-                       need=("invalid master key (IL = 0 or IL >= n) raises",)))
+                       need=("invalid master key (IL = 0 or IL >= n) raises",) if L else ()))
     cs.append(Case("correct_key", "correct_key", need=("correct_key rejects 0 and values >= n", "correct_key accepts [1, n-1]")))
     for app in (2, 32):
         cs.append(Case("bip85[%d]" % app, "bip85_secret", dict(app=app), max_paths=2000,
